@@ -65,7 +65,7 @@ def prepare():
 class Result(object):
     __slots__ = ('exit', 'out', 'err', 'events', 'crash', 'summary',
                  'contracts', 'signal', 'timeout', 'wall', 'argv', 'incomplete',
-                 'ccounts')
+                 'ccounts', 'prompt_seen')
 
     def __init__(self):
         self.exit = None
@@ -79,6 +79,7 @@ class Result(object):
         self.timeout = False
         self.wall = 0.0
         self.argv = None
+        self.prompt_seen = None
         self.incomplete = None
         self.ccounts = {}
 
@@ -328,9 +329,32 @@ def run_cmd(world, cmd, args, stdin=b'', plan=None, cwd=None, env=None,
                  pty_stdin)
 
 
-def finish_cmd(pid, st):
+def finish_cmd(pid, st, at_prompt=None):
+    """at_prompt = (bytes to wait for on stdout, callable): the reply on
+    stdin is held back until the command has printed its prompt; the callable
+    runs in between (a user doing something in another terminal before
+    answering)"""
     res, in_w, out_r, err_r, logpath, t0, stdin, watchdog, is_pty = st
     watchdog = watchdog or WATCHDOG_S
+    bufs = {out_r: [], err_r: []}
+    live = [out_r, err_r]
+    deadline = t0 + watchdog
+    if at_prompt:
+        marker, action = at_prompt
+        seen = False
+        while live and not seen and time.monotonic() < deadline:
+            r, _, _ = select.select(live, [], [], 0.5)
+            for fd in r:
+                d = os.read(fd, 65536)
+                if d:
+                    bufs[fd].append(d)
+                else:
+                    live.remove(fd)
+            if marker in b''.join(bufs[out_r]):
+                seen = True
+        res.prompt_seen = seen
+        if seen:
+            action()
     try:
         if stdin:
             try:
@@ -340,9 +364,6 @@ def finish_cmd(pid, st):
     finally:
         if not is_pty:
             os.close(in_w)
-    bufs = {out_r: [], err_r: []}
-    live = [out_r, err_r]
-    deadline = t0 + watchdog
     while live:
         tmo = deadline - time.monotonic()
         if tmo <= 0:
@@ -408,10 +429,12 @@ MODE = 'fork'
 
 
 def run(world, cmd, args, **kw):
-    if MODE == 'cold' and not kw.get('pty_stdin') and not kw.get('sched_sock'):
+    at_prompt = kw.pop('at_prompt', None)
+    if MODE == 'cold' and not kw.get('pty_stdin') and not kw.get('sched_sock') \
+            and not at_prompt:
         return run_cold(world, cmd, args, **kw)
     pid, st = run_cmd(world, cmd, args, **kw)
-    return finish_cmd(pid, st)
+    return finish_cmd(pid, st, at_prompt=at_prompt)
 
 
 def run_cold(world, cmd, args, stdin=b'', plan=None, cwd=None, env=None,
